@@ -221,9 +221,11 @@ static void case_set_str(ByteSource& in, CaseInfo& ci) {
   judge("mpf_set_str", d.r.f, X, p, true, ci); finish_dest(d);
 }
 static void case_get_str(ByteSource& in, CaseInfo& ci) {
-  F a; uint64_t pa = gen_prec(in); gen_operand(in, a, pa, (long)in.srange(-3, 4), ci); int base = (int)in.range(2, 62); bool negb = base <= 36 && in.flag(); int b = negb ? -base : base;
+  F a; uint64_t pa = gen_prec(in); long ec = (long)in.srange(-3, 4); if (in.chance(50)) { ec = (long)in.srange(-400, 400); ci.label("get_str:large_exponent"); } gen_operand(in, a, pa, ec, ci); if (in.chance(40) && a.f->_mp_size) { a.f->_mp_exp = ec; a.v = read_mpf(a.f); }   /* exponents of hundreds of limbs now and then: the error of the power computation grows with the exponent */
+  int base = (int)in.range(2, 62); bool negb = base <= 36 && in.flag(); int b = negb ? -base : base;
   uint64_t carried = mpf_get_prec(a.f); size_t maxd = (size_t)std::floor((double)carried / std::log2((double)base)); if (maxd < 1) maxd = 1;
   size_t nd = in.chance(30) ? 0 : (size_t)in.range(1, maxd);      // never more digits than the precision carries
+  if (nd && base == 10 && in.chance(60)) { static const size_t crit[] = {19, 38, 57, 77, 96}; size_t c = crit[in.range(0, 4)]; if (c <= maxd) nd = c; }   /* digit counts that need just under a whole number of limbs */
   ci.label("mpf_get_str"); ci.nontrivial = !a.v.m.is_zero(); ci.d("mpf_get_str base=%d n_digits=%zu ", b, nd); DESC(ci, "a=" + dshow(a.v));
   mp_exp_t ex = 777; std::string got; bool usebuf = nd > 0 && in.flag();
   if (usebuf) { char* buf = (char*)malloc(nd + 2); memset(buf, 0x55, nd + 2); char* r = mpf_get_str(buf, &ex, b, nd, a.f); REQUIRE(r == buf, "mpf_get_str: did not return the buffer"); got.assign(buf, strnlen(buf, nd + 2)); REQUIRE(got.size() < nd + 2, "mpf_get_str: no terminator within n_digits+2 bytes"); free(buf); }
@@ -240,8 +242,7 @@ static void case_get_str(ByteSource& in, CaseInfo& ci) {
   Int Dp = ref::from_digits(dv, base) * ref::pow(Int(base), nd - ds.size()); if (neg) Dp = -Dp; long s = (long)ex - (long)nd; Int L = ref::pow(Int(base), std::labs(s));
   Dy err, unit; if (s >= 0) { err = dadd(Dy{Dp * L, 0}, dneg(a.v)); unit = Dy{L, 0}; } else { err = dadd(Dy{Dp, 0}, dneg(Dy{a.v.m * L, a.v.e})); unit = Dy{Int(1), 0}; }
   if (dcmpabs(err, unit) > 0) {
-    bool within2 = dcmpabs(err, Dy{unit.m + unit.m, unit.e}) <= 0;
-    if (within2 && is_known("mpf_get_str-more-than-one-unit")) { ci.excluded.push_back("mpf_get_str-more-than-one-unit"); return; }
+    bool within2 = dcmpabs(err, Dy{unit.m + unit.m, unit.e}) <= 0;   // (the former known finding mpf_get_str-more-than-one-unit is repaired: nothing is excluded any more)
     fail("mpf_get_str(base=%d, n_digits=%zu): value of \"%s\" exp %ld is more than one unit of the last requested digit away from the operand%s", b, nd, got.c_str(), (long)ex, within2 ? " (error in (1,2] units)" : " (error > 2 units)");
   }
   if (ds.size() < nd) ci.label("get_str:fewer_digits_than_requested");
@@ -286,6 +287,6 @@ static void sweep_item(uint64_t i, CaseInfo& ci) {
 namespace eng {
 PropDef g_prop = {"C13",
   "Cases: one call of mpf_add/sub/mul/div/sqrt and their _ui forms, mpf_set_q/set_z/set_d, mpf_set_str, the default-precision family (mpf_set_default_prec then mpf_init_set/_ui/_si/_d/_str, mpf_inits: precision >= default, same value rules), mpf_floor/ceil/trunc/neg/abs/mul_2exp/div_2exp, mpf_get_str. Destination precision 1..2000 bits chosen independently of the operand precisions (shorter and longer), reached directly, through mpf_set_prec after another value, or through mpf_set_prec_raw (restored afterwards); the destination may alias an operand; operands are built limb by limb (up to prec+1 limbs, low zero limbs, all ones, single bit), with exponent relations no overlap / partial / full / far apart and nearly cancelling pairs for add/sub. Oracle: an mpf value is the exact dyadic rational mantissa*2^(64*(exp-size)) in refint; with p = mpf_get_prec(rop): |result-exact| < 2^(2-p)*|exact| (sqrt by squaring both bounds), result == exact whenever the operands and the exact value each fit in p bits, exact functions compared exactly, mpf_get_str: at most n_digits digits, no trailing zeros, right alphabet, value within one unit of the last requested digit (n_digits never exceeds what the precision carries); the format rules (|size| <= prec+1, top limb non-zero, zero has exponent 0) after every call. Non-trivial: non-zero first operand. Distinct = hash of all decoded choices.",
-  check, nullptr, {"exact_clause", "bound_clause", "result_truncated", "near_cancellation", "ui_operand_nearly_cancels", "x+1|000_minus_x|fff", "exponents_far_apart", "low_zero_limbs", "set_str:long_zero_fraction", "operand_longer_than_prec_raw", "dest:set_prec", "dest:set_prec_raw", "dest_aliases_operand", "get_str:fewer_digits_than_requested"}, fixed_case, sweep_count, sweep_item,
+  check, nullptr, {"exact_clause", "bound_clause", "result_truncated", "near_cancellation", "ui_operand_nearly_cancels", "x+1|000_minus_x|fff", "exponents_far_apart", "low_zero_limbs", "set_str:long_zero_fraction", "operand_longer_than_prec_raw", "dest:set_prec", "dest:set_prec_raw", "dest_aliases_operand", "get_str:fewer_digits_than_requested", "get_str:large_exponent"}, fixed_case, sweep_count, sweep_item,
   "every pair of mpf operands with a mantissa of up to two limbs from {0,1,2^63-1,2^63,2^64-2,2^64-1}, exponent in {-1,0,1,3} limbs and either sign (288 x 288), into a 64-bit and a 128-bit destination: mpf_add, sub, mul, div; with the six palette values as unsigned long: add_ui, sub_ui, ui_sub, mul_ui, div_ui, ui_div (2^(2-p) bound, exactness clause, format rules)"};
 }
